@@ -86,10 +86,11 @@ var specs = []CheckSpec{
 			{Fn: "VerifC18Slots", Quick: map[string]int{"PAIR": 1}, Thorough: map[string]int{"PAIR": 2}, Witness: []string{"bom", "several-imports"}, Native: true},
 			{Fn: "VerifC18Specs", Quick: map[string]int{"PL": 1}, Thorough: map[string]int{"PL": 2}, Witness: []string{"specs"}, Native: true},
 			{Fn: "VerifC18LongLines", Quick: map[string]int{"LENS": 4}, Thorough: map[string]int{"LENS": 4}, Witness: []string{"long-piece", "longer-than-a-read-buffer"}},
+			{Fn: "VerifC18NewlineInString", Quick: map[string]int{}, Thorough: map[string]int{}, Witness: []string{"newline-in-raw-string", "newline-in-interpreted-string"}, Native: true},
 			{Fn: "VerifC18Arbitrary", Quick: map[string]int{"N": 4}, Thorough: map[string]int{"N": 6}, Witness: []string{"ran", "syntax-error", "nul"}, Native: true},
 		},
 		Bounds: map[string]string{
-			"quick":    "files with a line comment, block comment, blank run or newline run of 100 / 4095 / 4096 / 5000 / 9000 bytes before, between or after two imports (longer than any read buffer); valid files from 4 token skeletons (no import / single / group of two / single+group+empty group) x 5 declaration tails x optional BOM, with one separator slot at a time ranging over its full menu (blanks, semicolons, CRLF, // and /* */ comments with a symbolic body byte); all alias forms x raw/interpreted paths with <= 1 symbolic byte; arbitrary tails of <= 4 symbolic bytes after 5 prefixes, both reportSyntaxError values",
+			"quick":    "files with a line comment, block comment, blank run or newline run of 100 / 4095 / 4096 / 5000 / 9000 bytes before, between or after two imports (longer than any read buffer); valid files from 4 token skeletons (no import / single / group of two / single+group+empty group) x 5 declaration tails x optional BOM, with one separator slot at a time ranging over its full menu (blanks, semicolons, CRLF, // and /* */ comments with a symbolic body byte); all alias forms x raw/interpreted paths with <= 1 symbolic byte; arbitrary tails of <= 4 symbolic bytes after 5 prefixes, both reportSyntaxError values; an import path of two symbolic letters with a raw newline (or CR LF) before, between or after them, in an interpreted string (a syntax error) and in a raw string (valid), in 4 import positions",
 			"thorough": "two separator slots vary simultaneously; paths with <= 2 symbolic bytes; arbitrary tails <= 6 bytes",
 		},
 		Assumptions: append([]string{"validity of generated files and the expected import list are cross-checked against go/parser (ImportsOnly) on every natively replayed path witness"}, commonAssumptions...),
@@ -100,7 +101,7 @@ var specs = []CheckSpec{
 		Harnesses: []HarnessSpec{
 			{Fn: "VerifC02Split", Quick: map[string]int{"N": 6}, Thorough: map[string]int{"N": 9}, Witness: []string{"parsed", "two-words", "unterminated"}, Native: true},
 			{Fn: "VerifC02QuoteLaw", Quick: map[string]int{"K": 2, "W": 3}, Thorough: map[string]int{"K": 3, "W": 4}, Witness: []string{"quoted-parse"}, Native: true},
-			{Fn: "VerifC02Expand", Quick: map[string]int{"H": 3, "VL": 1}, Thorough: map[string]int{"H": 3, "VL": 2}, Witness: []string{"expanded", "reassigned"}, Native: true},
+			{Fn: "VerifC02Expand", Quick: map[string]int{"H": 3, "VL": 1}, Thorough: map[string]int{"H": 3, "VL": 2}, Witness: []string{"expanded", "reassigned", "display-then-assign"}, Native: true},
 		},
 		Bounds: map[string]string{
 			"quick":    "all lines of <= 6 bytes without '$' or newline against a reference tokenizer; all lists of <= 2 words of <= 3 arbitrary bytes (no newline) quoted and re-parsed; all histories of <= 3 assignments (via Setenv or the env builtin) to {A,B,AB,AR} with values of <= 1 arbitrary byte, six reference forms ($K, ${K}, x$K/y, ${K}B, ${K@R}, '$K'$K)",
@@ -146,11 +147,12 @@ var specs = []CheckSpec{
 		ID: "C13", Pkg: "cache", UsesVFS: true,
 		Harnesses: []HarnessSpec{
 			{Fn: "VerifC13Trim", Quick: map[string]int{"E": 1, "LK": 1, "EPOCHS": 1}, Thorough: map[string]int{"E": 1, "LK": 1, "EPOCHS": 2}, Witness: []string{"clock-past-2038", "due", "not-due", "stale-removed", "lookup-before-trim", "trim-record-missing", "trim-record-digits", "trim-record-corrupt", "trim-record-unreadable"}},
+			{Fn: "VerifC13Trim", Quick: map[string]int{"E": 2, "LK": 0, "EPOCHS": 0, "SUBS": 0, "TK": 0}, Thorough: map[string]int{"E": 2, "LK": 0, "EPOCHS": 0, "SUBS": 0, "TK": 0}, Witness: []string{"due", "stale-removed"}},
 			{Fn: "VerifC13Trim", Thorough: map[string]int{"E": 2, "LK": 1, "EPOCHS": 0, "SUBS": 0}, ThoroughOnly: true, Witness: []string{"due", "not-due", "stale-removed"}},
 			{Fn: "VerifC13Lookup", Quick: map[string]int{"EPOCHS": 1}, Thorough: map[string]int{"EPOCHS": 2}, Witness: []string{"looked-up-within-five-days", "stale-since-lookup"}},
 		},
 		Bounds: map[string]string{
-			"quick":    "one cache subdirectory (a1, ff or 00) with <= 1 file from an 8-name template (entry names with -a/-d suffix, trim.txt, README, x-b, -a, fuzz, a1-ab) with a symbolic modification time within +-20 days of now; last-trim record missing / unreadable / 6 corrupt forms / 10 decimal digits of which the last 6 are symbolic (+-11 days around now at second resolution), optionally blank-padded; <= 1 preceding lookup at a symbolic earlier time through the real used(); the instant of Trim chosen from {1700000000, 2200000000} (thorough: also 4400000000), i.e. before and after 2^31 and 2^32 seconds",
+			"quick":    "one cache subdirectory (a1, ff or 00) with <= 1 file from an 8-name template (entry names with -a/-d suffix, trim.txt, README, x-b, -a, fuzz, a1-ab) with a symbolic modification time within +-20 days of now; last-trim record missing / unreadable / 6 corrupt forms / 10 decimal digits of which the last 6 are symbolic (+-11 days around now at second resolution), optionally blank-padded; <= 1 preceding lookup at a symbolic earlier time through the real used(); the instant of Trim chosen from {1700000000, 2200000000} (thorough: also 4400000000), i.e. before and after 2^31 and 2^32 seconds; and any two distinct files of the template in subdirectory a1 at the first epoch with no last-trim record and no lookup (a file that is not an entry does not stop the scan)",
 			"thorough": "the quick bound with the third epoch (4400000000), and in addition <= 2 files in subdirectory a1 at the first epoch",
 		},
 		Stubs: []string{"as C05, plus syscall.Flock (always succeeds) under lockedfile.Read/Write", "(time.Time).Sub on symbolic whole-second times: modelled as delta*1e9 under the path assumption |delta| < 2^33 s, with comparisons against constants rewritten to comparisons of delta (see symx/timemodel.go)"},
@@ -177,9 +179,10 @@ var specs = []CheckSpec{
 			{Fn: "VerifC07Sequential", Quick: map[string]int{"L": 3}, Thorough: map[string]int{"L": 8}, Witness: []string{"read", "write", "grow", "shrink"}},
 			{Fn: "VerifC07NothingBeforeLock", Quick: map[string]int{"L": 3}, Thorough: map[string]int{"L": 8}, Witness: []string{"write", "create"}},
 			{Fn: "VerifC07TransformFault", Quick: map[string]int{"L": 3}, Thorough: map[string]int{"L": 7}, Witness: []string{"user-fails", "write-step-fails", "truncate-fails", "close-fails"}},
+			{Fn: "VerifC07ReadDuringWrite", Quick: map[string]int{"L": 3}, Thorough: map[string]int{"L": 8}, Witness: []string{"truncated", "partly-written"}},
 		},
 		Bounds: map[string]string{
-			"quick":    "old and new contents of <= 3 symbolic bytes each (every length relation); Read under arbitrary short reads; one failure at any file operation of Transform (a failing WriteAt leaves any prefix) or in the user function; for Write, Create, Transform and OpenFile(O_TRUNC): the contents at the time the lock is requested are still the old contents",
+			"quick":    "old and new contents of <= 3 symbolic bytes each (every length relation); Read under arbitrary short reads; one failure at any file operation of Transform (a failing WriteAt leaves any prefix) or in the user function; for Write, Create, Transform and OpenFile(O_TRUNC): the contents at the time the lock is requested are still the old contents; a Read issued while another holder has the file truncated or partly written (any proper prefix) returns the complete contents in place once its lock request is granted",
 			"thorough": "contents <= 8 bytes (7 for the fault schedule)",
 		},
 		Stubs: []string{"as C06"},
@@ -219,7 +222,7 @@ var specs = []CheckSpec{
 	{
 		ID: "C16", Pkg: "testscript", UsesVFS: true,
 		Harnesses: []HarnessSpec{
-			{Fn: "VerifC16Update", Quick: map[string]int{"G": 2, "A": 2, "C": 1}, Thorough: map[string]int{"G": 2, "A": 2, "C": 2}, Witness: []string{"update", "no-update", "quoted-update", "rerun", "actual-has-marker", "cmp-from-subdirectory", "duplicate-entry-name", "entry-name-with-variable", "actual-longer-than-the-entry-and-the-next-marker", "actual-with-crlf-lines"}},
+			{Fn: "VerifC16Update", Quick: map[string]int{"G": 2, "A": 2, "C": 1}, Thorough: map[string]int{"G": 2, "A": 2, "C": 2}, Witness: []string{"update", "no-update", "quoted-update", "rerun", "actual-has-marker", "cmp-from-subdirectory", "duplicate-entry-name", "entry-name-with-variable", "actual-longer-than-the-entry-and-the-next-marker", "actual-with-crlf-lines", "actual-has-crlf-marker"}},
 		},
 		Bounds: map[string]string{
 			"quick":    "script archive with two golden entries of <= 2 symbolic bytes (+newline, or empty), one actual text on stdout (<= 2 arbitrary bytes, or a text containing a marker line with a symbolic byte), one comparison line: cmp / ! cmp / cmpenv against entry 0, entry 1 or a file outside the archive; UpdateScripts symbolic; second run of the real code on the rewritten script",
